@@ -1,6 +1,7 @@
 SPECIFICATION Spec
 CONSTANTS
   NFaults = 1
+  MaxWrap = 1
   Emitting = TRUE
 INVARIANT DecTotal
 INVARIANT InvEmit
